@@ -8,6 +8,9 @@ component channels; driven either directly (`fetch_next()` in a loop, one call p
 
 A case = {"drive": "fetcher"|"engine", "fb": 0 (fake) | 1 | 2 (real, that many components),
           "p0" (tick of round 0), "t0us", "stepus", "events": [["P",tick,val] | ["cP"] | ["F",tick,[val,…]] | ["cF"] | ["B",tick]]}
+       | {"drive": "pvpool", "meters": 2|3, "script": [{"m": [meter values], "i": [inverter values], "order": "mi"|"im"}]}
+         (full stack: `microgrid.new_pv_pool().power` over the repo's MockMicrogrid — real PVPowerFormula fallback
+         generator / `_get_metric_fallback_components`, lock-step; oracle only, not replayed on the model)
 After every event the loop is settled.  Observed: the result of every `fetch_next()` of the term with the fallback
 ([tick,val] | "None" | "<ErrorClass>"), `fallback.is_running` at the end, and in engine mode the formula outputs.
 
@@ -40,7 +43,8 @@ RULE = ("event schedules (primary samples valid/None/NaN/inf in runs, primary cl
         "samples before/with/after the primary sample of the same tick, fallback close, credits of the second term "
         "with lag 0-4) x drive {fetch_next loop, FormulaEngine '#p + #b'} x fallback {fake receiver, real "
         "FallbackFormulaMetricFetcher over 1-2 component channels}; non-trivial = the primary fails at least once "
-        "and the fallback delivers after that; distinct by canonical JSON hash")
+        "and the fallback delivers after that; plus lock-step fault scripts on microgrid.new_pv_pool().power over the "
+        "repo's MockMicrogrid (real PVPowerFormula fallback generator); distinct by canonical JSON hash")
 
 REGIME = "PrimaryStreamError"
 
@@ -207,6 +211,88 @@ def run_impl(case: dict) -> dict:
 def b_value(tick: int) -> int:
     """Value of the second term at a tick: a multiple of 4096, so sums decode uniquely."""
     return 4096 * (tick + 1)
+
+
+# ------------------------------------------------------------------------------------------ full stack (PV pool)
+async def _run_fullstack(case: dict) -> list:
+    """`microgrid.new_pv_pool().power` over the repo's MockMicrogrid: real PVPowerFormula generator
+    (`_get_metric_fallback_components`), real FallbackFormulaMetricFetcher, lock-step mock resampler."""
+    from contextlib import AsyncExitStack
+
+    from frequenz.sdk import microgrid
+    from pytest_mock import MockerFixture
+    from tests.timeseries.mock_microgrid import MockMicrogrid
+
+    class _Cfg:  # MockerFixture only asks the config for `mock_use_standalone_module`
+        def getini(self, _name: str) -> bool:
+            return False
+
+    mocker = MockerFixture(_Cfg())  # type: ignore[arg-type]
+    outs: list = []
+    try:
+        mockgrid = MockMicrogrid(grid_meter=False, mocker=mocker)
+        mockgrid.add_solar_inverters(case["meters"])
+        async with mockgrid, AsyncExitStack() as stack:
+            pool = microgrid.new_pv_pool(priority=5)
+            stack.push_async_callback(pool.stop)
+            rx = pool.power.new_receiver(max_size=1000)
+            for tick in case["script"]:
+                sends = {"m": mockgrid.mock_resampler.send_meter_power, "i": mockgrid.mock_resampler.send_pv_inverter_power}
+                for which in tick["order"]:
+                    await sends[which]([None if v is None else float(v) for v in tick[which]])
+                    if tick.get("settle_between", True):
+                        await g.settle()
+                mockgrid.mock_resampler.next_ts()
+                await g.settle()
+                got = []
+                while len(rx):
+                    smp = rx.consume()
+                    got.append(None if smp.value is None else rat(smp.value.as_watts()))
+                outs.append(got)
+    finally:
+        mocker.stopall()
+    return outs
+
+
+def oracle_fullstack(ctx: Ctx, case: dict, outs: list) -> None:
+    n = case["meters"]
+    failed = [False] * n  # the meter has failed before this tick: its fallback is running
+    for t, (tick, got) in enumerate(zip(case["script"], outs)):
+        exp: Any = Fraction(0)
+        for m in range(n):
+            mv, iv = tick["m"][m], tick["i"][m]
+            if mv is not None:
+                term: Any = Fraction(mv)
+            elif failed[m]:
+                term = Fraction(iv) if iv is not None else Fraction(0)
+            else:
+                term = None  # start-up: the round of the first failure
+            if term is None:
+                exp = None
+            elif exp is not None:
+                exp += term
+        for m in range(n):
+            if tick["m"][m] is None:
+                failed[m] = True
+        if got != [None if exp is None else rat(exp)]:
+            ctx.violation("fullstack", case, {"detail": f"tick {t}: pv_pool.power emitted {got}, expected "
+                                                        f"{[None if exp is None else rat(exp)]}", "outputs": outs})
+            return
+
+
+def gen_fullstack(rng) -> dict:
+    n = rng.choice([2, 2, 3])
+    ticks = rng.randint(4, 10)
+    mstate = [True] * n
+    script = []
+    for t in range(ticks):
+        for m in range(n):
+            if rng.random() < 0.3:
+                mstate[m] = not mstate[m]
+        script.append({"m": [-(m + 1) * 4 if mstate[m] else None for m in range(n)],
+                       "i": [-(m + 1) * 256 - t if rng.random() < 0.8 else None for m in range(n)],
+                       "order": rng.choice(["mi", "im"]), "settle_between": rng.random() < 0.7})
+    return {"drive": "pvpool", "meters": n, "script": script}
 
 
 # ------------------------------------------------------------------------------------------ the model's view
@@ -492,7 +578,13 @@ def exhaustive_cases(max_ticks: int):
 
 
 # ------------------------------------------------------------------------------------------ entry points
-def check_case(ctx: Ctx, case: dict) -> tuple[dict, dict]:
+def check_case(ctx: Ctx, case: dict) -> tuple[dict, dict] | None:
+    if case["drive"] == "pvpool":
+        outs = g.run_async(_run_fullstack(case))
+        oracle_fullstack(ctx, case, outs)
+        ctx.case(case, tags=["drive:pvpool-fullstack", f"meters:{case['meters']}"],
+                 nontrivial=any(v is None for tick in case["script"] for v in tick["m"]))
+        return None
     obs = run_impl(case)
     a = oracle(ctx, case, obs)
     tags, nontrivial = tags_of(case, a, obs)
@@ -505,27 +597,31 @@ def run(ctx: Ctx) -> None:
     ctx.rule = RULE
     n = ctx.budget(2500, 30000)
     cases, outs = [], []
+
+    def one(case: dict) -> None:
+        r = check_case(ctx, case)
+        if r is not None:
+            cases.append(r[0])
+            outs.append(r[1])
+
     for case in g.load_corpus("C19"):
-        m, o = check_case(ctx, case)
-        cases.append(m)
-        outs.append(o)
+        one(case)
     for i in range(n):
         rng = ctx.subrng("case", i)
-        m, o = check_case(ctx, gen_case(rng, small=i % 3 == 0))
-        cases.append(m)
-        outs.append(o)
+        one(gen_case(rng, small=i % 3 == 0))
+    for i in range(ctx.budget(60, 600)):
+        one(gen_fullstack(ctx.subrng("fullstack", i)))
     if ctx.tier == "thorough":
         for case in exhaustive_cases(4):
-            m, o = check_case(ctx, case)
-            cases.append(m)
-            outs.append(o)
+            one(case)
     ctx.compare("Fallback", cases, outs, what="fetch_next results per round + is_running")
 
 
 def replay(ctx: Ctx, data: dict) -> None:
     python_flags()
     case = data.get("case")
-    if not case or "events" not in case:
+    if not case or ("events" not in case and "script" not in case):
         return run(ctx)
-    m, o = check_case(ctx, case)
-    ctx.compare("Fallback", [m], [o], what="fetch_next results per round + is_running")
+    r = check_case(ctx, case)
+    if r is not None:
+        ctx.compare("Fallback", [r[0]], [r[1]], what="fetch_next results per round + is_running")
